@@ -8,8 +8,8 @@
    delete at version-1 after a discard-earlier marker); `load` = DB.Load; `vis` = the MVCC
    specification (Spec.v). *)
 From Verif Require Import Bytes Keys Consts Spec Lsm Compact Iter Sys Stream SysStream
-  StreamProofs StreamProofs2 BackupProofs StreamWitness.
-From Coq Require Import Sorting.Sorted Permutation.
+  StreamProofs StreamProofs2 BackupProofs StreamWitness Loader LoaderProofs.
+From Coq Require Import Sorting.Sorted Permutation ZArith.
 Open Scope N_scope.
 
 (* exactly which versions are retained, with value / user meta / expiry / marker bits *)
@@ -31,6 +31,67 @@ Proof.
   exact (load_next_above s kvs H).
 Qed.
 Print Assumptions C24_load.
+
+(* ---- KVLoader (backup.go Set / send / Finish, db.go sendToWriteCh), B/Loader.v ----
+   `loader_run est vlen maxc maxs flush kvs` = (the batches the write path accepted, in the order
+   sent; the batch it rejected with ErrTxnTooBig, None = Load returned nil) for the KV sequence
+   kvs of one DB.Load, ANY estimate / value-length functions and ANY limits (maxBatchCount,
+   maxBatchSize of the target, flushThreshold). *)
+
+(* Load returned nil: the batches, concatenated, are exactly the KVs in stream order: no KV lost
+   at a flush, none duplicated, none reordered *)
+Theorem C24_loader_exact : forall (A : Type) (est vlen : A -> Z) (maxc maxs flush : Z) (kvs : list A) bs,
+  loader_run est vlen maxc maxs flush kvs = (bs, None) -> concat bs = kvs.
+Proof. exact @loader_concat. Qed.
+Print Assumptions C24_loader_exact.
+
+(* ErrTxnTooBig: what was written, followed by the rejected batch, is a prefix of the stream *)
+Theorem C24_loader_prefix_on_reject : forall (A : Type) (est vlen : A -> Z) (maxc maxs flush : Z) (kvs : list A) bs b,
+  loader_run est vlen maxc maxs flush kvs = (bs, Some b) -> exists rest, kvs = concat bs ++ b ++ rest.
+Proof. exact @loader_prefix. Qed.
+Print Assumptions C24_loader_prefix_on_reject.
+
+(* every batch the loader hands over (the rejected one included) respects the count limit and
+   the size limit, unless it is a single entry (or empty); the accepted ones passed the
+   admission test of sendToWriteCh *)
+Theorem C24_loader_batch_limits : forall (A : Type) (est vlen : A -> Z) (maxc maxs flush : Z) (kvs : list A) bs r,
+  loader_run est vlen maxc maxs flush kvs = (bs, r) ->
+  (Forall (batch_ok est maxc maxs) bs /\ match r with Some b => batch_ok est maxc maxs b | None => True end)
+  /\ Forall (fun b => (blen b < maxc)%Z /\ (batch_size est b < maxs)%Z) bs.
+Proof.
+  intros A est vlen maxc maxs flush kvs bs r H.
+  split; [exact (loader_batches_ok est vlen maxc maxs flush kvs bs r H)|exact (loader_accepted est vlen maxc maxs flush kvs bs r H)].
+Qed.
+Print Assumptions C24_loader_batch_limits.
+
+(* no batch is rejected when every entry fits a batch of the target on its own (as every entry a
+   transaction of a database with the same options could write does) *)
+Theorem C24_loader_no_reject : forall (A : Type) (est vlen : A -> Z) (maxc maxs flush : Z),
+  (2 <= maxc)%Z -> (0 < maxs)%Z -> forall kvs : list A, (forall kv, In kv kvs -> (est kv < maxs)%Z) ->
+  exists bs, loader_run est vlen maxc maxs flush kvs = (bs, None).
+Proof. exact @loader_no_error. Qed.
+Print Assumptions C24_loader_no_reject.
+
+(* the batch boundaries depend on the KVs only through the projection the estimate is computed
+   from (the correspondence evaluates the model on (key length + 8, value length) pairs) *)
+Theorem C24_loader_projection : forall (A B : Type) (f : B -> A) (est vlen : A -> Z) (maxc maxs flush : Z) (kvs : list B),
+  loader_run est vlen maxc maxs flush (map f kvs)
+  = (map (map f) (fst (loader_run (fun x => est (f x)) (fun x => vlen (f x)) maxc maxs flush kvs)),
+     option_map (map f) (snd (loader_run (fun x => est (f x)) (fun x => vlen (f x)) maxc maxs flush kvs))).
+Proof. exact @loader_run_map. Qed.
+Print Assumptions C24_loader_projection.
+
+(* writing the loader's batches one after the other = the model's Load (C24_load), for all limits *)
+Theorem C24_load_batched : forall maxc maxs flush thr s kvs bs,
+  loader_run (fun e => kv_est thr (ent_kv e)) (fun e => kv_vlen (ent_kv e)) maxc maxs flush kvs = (bs, None) ->
+  fold_left apply_entries bs (s_db s) = s_db (load s kvs)
+  /\ map (map ent_kv) bs = fst (kv_loader_run maxc maxs flush thr (map ent_kv kvs)).
+Proof. exact load_batched. Qed.
+Print Assumptions C24_load_batched.
+Example C24_loader_ex :
+  kv_loader_run 6 614 104857600 32 (expand_runs [(7, (11, 3)); (1, (11, 600)); (2, (700, 0))])%Z
+  = ([[(11, 3); (11, 3); (11, 3); (11, 3); (11, 3)]; [(11, 3); (11, 3); (11, 600)]], Some [(700, 0)])%Z.
+Proof. exact loader_ex. Qed.
 
 (* reads at any timestamp on the loaded KVs = reads on the retained source versions
    (backup taken at wall-clock nowb, read at now >= nowb) *)
